@@ -8,7 +8,7 @@ CONSTANTS
   Methods = {"GET", "POST"}
   Binds = {5}
   WsKinds = {FALSE, TRUE}
-  ExportEvery = 7
+  ExportEvery = 41
 INIT Init
 NEXT Next
 INVARIANT ExportCase
